@@ -59,7 +59,14 @@ def init_part(rng, c, sim, styles=("list", "single", "rho", "default")):
 
 
 def gen_case(rng, sim, nmax=8):
-    """a json-able case for simulator `sim`"""
+    """a json-able case for simulator `sim`; one case in four is preceded by a call on the same graph object in a different
+    state (`prewarm`)"""
+    c = _gen_case(rng, sim, nmax)
+    c["prewarm"] = rng.random() < 0.25
+    return c
+
+
+def _gen_case(rng, sim, nmax=8):
     if sim in ("Gillespie_SIR", "Gillespie_SIS"):
         c = sims.gillespie_case(rng, sim == "Gillespie_SIS")
         c["sim"] = sim
@@ -154,7 +161,14 @@ class Rules:
 
     def trans_time_sis(self, u, v, rec_delay):
         per = self.delay[(self.li[u], self.li[v])]
-        return [fl(x) for x in per[self._k % len(per)]]
+        j = self._k % len(per)
+        if self.c.get("stored_lists", True):
+            # a look-up table: the SAME list object is handed back whenever the same entry is asked for again (the
+            # simulator must treat what a user function returns as read-only)
+            if not hasattr(self, "_tab"):
+                self._tab = {}
+            return self._tab.setdefault((self.li[u], self.li[v], j), [fl(x) for x in per[j]])
+        return [fl(x) for x in per[j]]
 
     def joint_sis(self, node, nbrs):
         d = self.rec_time_sis(node)
@@ -176,9 +190,82 @@ class Rules:
         return k >= self.c["recsteps"][self.li[u]]
 
 
+def _reorder(d, order):
+    """put the keys of the (networkx adjacency) dict `d` back into `order`, in place, keeping the value objects"""
+    tmp = dict(d)
+    d.clear()
+    for k in order:
+        if k in tmp:
+            d[k] = tmp[k]
+    for k in tmp:
+        if k not in d:
+            d[k] = tmp[k]
+
+
+def prewarm(case, G, lab, full, rules):
+    """Hidden state across calls: run the simulator once on THE SAME graph object in a different state, then put the
+    object back exactly as it was (in place) before the run that is checked.  One edge is moved (node and edge counts
+    unchanged) and every numeric node / edge attribute is overwritten by item assignment through the networkx views —
+    edits that do not go through add_edge / set_*_attributes for the attributes.  An implementation that memoises
+    anything per graph object (neighbour lists, rate tables, degree counts) then works on stale data in the real run."""
+    import random as _r, copy as _copy
+    r = _r.Random(20240917)
+    directed = G.is_directed()
+    order = {u: list(G._adj[u]) for u in G}
+    porder = {u: list(G._pred[u]) for u in G} if directed else None
+    nattrs = {u: _copy.deepcopy(dict(G.nodes[u])) for u in G}
+    eattrs = {(u, v): _copy.deepcopy(dict(d)) for u, v, d in G.edges(data=True)}
+    es = list(G.edges())
+    non = [(u, v) for u in G for v in G if u != v and not G.has_edge(u, v) and (directed or not G.has_edge(v, u))]
+    moved = None
+    if es and non and case["sim"] != "Gillespie_simple_contagion":     # (its spec tables are keyed by the case's edge list)
+        e, f = r.choice(es), r.choice(non)
+        G.remove_edge(*e)
+        G.add_edge(*f, **_copy.deepcopy(eattrs[e]))
+        moved = (e, f)
+    for u in G:
+        for k, v in list(G.nodes[u].items()):
+            if isinstance(v, (int, float)) and not isinstance(v, bool):
+                G.nodes[u][k] = float(v) * 3 + 1
+    for u, v, d in G.edges(data=True):
+        for k, val in list(d.items()):
+            if isinstance(val, (int, float)) and not isinstance(val, bool):
+                G[u][v][k] = float(val) * 3 + 1
+            elif isinstance(val, dict):
+                for kk in list(val):
+                    val[kk] = float(val[kk]) * 3 + 1
+    try:
+        throw = rngmod.TapeRandom(rng=_r.Random(7), idx=gen.index_of(G), max_calls=4000)
+        warm = dict(case, prewarm=False, tmax=case["tmax"] if case["tmax"] != "inf" else str(F(case["tmin"]) + 5), _calls=[], _keep_attrs=True)
+        # (the harness's own callbacks may be stateful: the warm-up gets fresh ones)
+        call_sim(warm, G, lab, throw, full, Rules(warm, lab, gen.index_of(G)) if rules is not None else None)
+    except Exception:
+        pass
+    finally:
+        if moved:
+            e, f = moved
+            G.remove_edge(*f)
+            G.add_edge(*e)
+        for (u, v), d in eattrs.items():
+            G[u][v].clear()
+            G[u][v].update(_copy.deepcopy(d))
+        for u, d in nattrs.items():
+            G.nodes[u].clear()
+            G.nodes[u].update(_copy.deepcopy(d))
+        for u in G:
+            _reorder(G._adj[u], order[u])
+            if directed:
+                _reorder(G._pred[u], porder[u])
+
+
 def call_sim(case, G, lab, tr, full, rules=None):
     import EoN
     sim = case["sim"]
+    if case.get("prewarm"):
+        if sim == "Gillespie_simple_contagion":
+            import specs as _sp
+            _sp.prepare_graph(case, G, lab)
+        prewarm(case, G, lab, full, rules)
     if sim in ("Gillespie_SIR", "Gillespie_SIS"):
         return sims.gillespie_call(case, G, lab, tr, full)
     if sim in ("Gillespie_simple_contagion", "Gillespie_complex_contagion"):
